@@ -14,7 +14,7 @@ CLAIMED = {
              "graph for small vocabularies; the relation of MQTT 3.1.1 section 4.7 itself is the specification (TopicRel). The code is bound "
              "to it by replay: all filter/name pairs of <= 4 levels over {a,b,'',+,#} (+ two mixed levels) in both look-up directions, "
              "every path of bounded depth + transition cover + random walks through the TLC-generated state graph, and TLC "
-             "-simulate histories over a larger vocabulary, with every look-up of the vocabulary compared after every step.",
+             "-simulate histories over a larger vocabulary, with every look-up of the vocabulary compared after every step. Concurrent callers: recorded call/return histories of 6 goroutines on one store are checked for linearizability against the Topics semantics by TLC (TopicsLinTrace, unlogged linearization points).",
         note="Trusted: TLC, the JSON bridge, the harness adapter (harness/topics.go). Bounded vocabularies and depths; "
              "subscriber identities limited to pointer/string/int; '$' topics excluded by the property. Empty-level handling "
              "is a recorded known finding (known_findings.txt).",
@@ -39,7 +39,7 @@ CLAIMED["C14"] = dict(
          "is bound to it by forcing TLC-generated transition-cover schedules on it through the verif yield points (gated "
          "replay): consumed bytes are compared with a position-dependent stream and the cursors with the specification after "
          "every step. Free-running producer/consumer pairs (byte granularity, 16 KiB and 256 KiB rings, all operation kinds) are "
-         "recorded and validated by TLC against RingStreamTrace.",
+         "recorded and validated by TLC against RingStreamTrace. The schedule cover is over pairs of consecutive steps; RingEdge states the two guards at byte granularity (exactly enough room/data vs one byte short) and every case is executed on a real 16 KiB buffer.",
     note="Trusted: TLC, the yield hooks (add-only), the replayer (harness/ring.go). Model bounds: Size 4, Block 2, chunks <= 2 units, "
          "Total <= 7 units; one producer and one consumer. The hand-over inside sync.Cond.Wait cannot be gated (Eager regime for replay; "
          "TLC checks the unrestricted model).",
@@ -51,7 +51,7 @@ CLAIMED["C15"] = dict(
          "code switched on TLC finds the deadlock (vacuity guard). Every transition of the replayable regime that involves a lock, "
          "wait, wake, broadcast or end-of-stream return is forced on the real buffer: the yield point reached next, parking "
          "(observed through a TryLock probe), call results, cursors and both mutex probes are compared after every step; a step the "
-         "specification enables must complete.",
+         "specification enables must complete. Additional configuration with requests of 3 of the ring's 4 units (a producer may wait for more than a read block); RingEdge byte-granular guard cases (a call that has exactly what it needs must return, one that is a byte short must park and be released by exactly that byte).",
     note="Trusted: TLC, yield hooks, replayer. A blocked step counts only after 3-fold reproduction with a 4 s deadline (normal "
          "completion is microseconds). Same model bounds as C14.",
     technique="TLA+ specification (Ring) model-checked with TLC incl. liveness; TLC-generated schedules replayed through scheduler gates",
@@ -62,7 +62,7 @@ CLAIMED["C03"] = dict(
          "inverts Wire and the frame arithmetic on every explicit case). TLC enumerates the product of boundary classes (5.4 k cases over "
          "all 14 packet types); each case is built through the public setters and compared with the reference: Len, Encode bytes, "
          "Decode length and fields, re-encode, decode with trailing bytes, undersized buffer. PacketId specifies the automatic "
-         "identifier (never 0); 131,073 consecutive automatically numbered encodes are checked in one process.",
+         "identifier (never 0); 131,073 consecutive automatically numbered encodes are checked in one process. Also: pairs (A, B) of small cases - A's wire form is decoded, B's fields are set through the setters (identifier also left to the library), Len/Encode must give B's wire form (Codec!Mods); Encode into a destination that held other bytes; reference packets with a padded remaining length re-encode to their bytes if accepted (Codec!Pads).",
     note="This is the 'self-contained function with rich case analysis' use of the technique: exhaustive over classes of field values, "
          "not over all values; a differential check against a specification-level codec, not a proof. Trusted: TLC, the seed expansion "
          "in harness/codec.go.",
@@ -73,7 +73,7 @@ CLAIMED["C04"] = dict(
          "alphabet. Every string is fed to all 14 decoders in a slice with cap = len inside a canary array under recover: no panic, n <= len, "
          "fields inside the decoded packet, and every string the reference parser accepts is accepted with the same length and fields. "
          "Truncations at/next to every segment boundary and edits of every structure byte of every reference case (segment structure "
-         "printed by the specification), and seeded random strings, are checked for totality.",
+         "printed by the specification), and seeded random strings, are checked for totality. Also: every reference case (incl. requests repeating a filter, long first filters next to one-character ones, unset identifiers) must be accepted with its field values; padded remaining lengths may be refused but never crash or mis-size.",
     note="Totality over all byte strings is approximated by structured + random inputs; Go's own bounds checks turn out-of-range reads into "
          "panics (what is observed), silent over-reads are only possible within cap, hence cap = len. Leniencies are counted, not reported.",
     technique="TLA+ total reference parser (Codec!Parse) enumerated by TLC; spec-derived mutations; decoders run under recover against it",
